@@ -34,10 +34,20 @@ func init() {
 			"'promptly' for released waiters is decided as: the call returned before T3 (30 s) and within 15 s of the final Close",
 		},
 		Phases: func(tier string) []fw.Phase {
-			return []fw.Phase{{Name: "generations", Race: true, Shards: 8, Timeout: tierDur(tier, 8, 45), HangIsViolation: true}}
+			return []fw.Phase{
+				{Name: "generations", Race: true, Shards: 8, Timeout: tierDur(tier, 8, 45), HangIsViolation: true},
+				// SECS-I: senders parked on the line engine must be released by their generation's end (c09_secs1.go)
+				{Name: "secs1-waiters", Race: true, Shards: 4, Timeout: tierDur(tier, 8, 45), HangIsViolation: true},
+			}
 		},
-		Worker:         c09Worker,
-		RequiredEvents: []string{"generations", "frames_checked", "waiters_released_conn_closed", "drops_with_open_transactions", "replies_checked", "stale_secondaries_sent", "kind_fin", "kind_rst", "kind_stall", "kind_close-reopen", "kind_linktest", "kind_t7", "kind_t8"},
+		Worker: func(env *fw.Env) {
+			if env.Phase == "secs1-waiters" {
+				c09S1Worker(env)
+			} else {
+				c09Worker(env)
+			}
+		},
+		RequiredEvents: []string{"s1_waiter_cases", "s1_waiters_released", "senders_stalled_after_write", "generations", "frames_checked", "waiters_released_conn_closed", "drops_with_open_transactions", "replies_checked", "stale_secondaries_sent", "kind_fin", "kind_rst", "kind_stall", "kind_close-reopen", "kind_linktest", "kind_t7", "kind_t8"},
 		Exhaustive:     func(string) bool { return true },
 	})
 }
